@@ -36,8 +36,13 @@ class Inliner:
         if not any(a.endswith("ASN1Reader") or a.endswith("ASN1Header") for a in anns) and not makes_reader:
             return None
         ret = norm(hf.node.returns) if hf.node.returns is not None else ""
-        if ret == "bool" or "ASN1Header" in ret:
+        if ret == "bool":
             return None
+        if "ASN1Header" in ret:
+            # a helper that only peeks ("the next header, or None when nothing is left") is expanded; one that also tests the
+            # tag keeps the extractor's dedicated treatment (its result stands for those tests)
+            if any(isinstance(x, ast.Compare) for x in ast.walk(hf.node)) or any(isinstance(x, ast.Call) and isinstance(x.func, ast.Name) for x in ast.walk(hf.node)):
+                return None
         if any(isinstance(x, (ast.Yield, ast.YieldFrom, ast.Global, ast.Nonlocal)) for x in ast.walk(hf.node)):
             return None
         if hf.node.args.vararg or hf.node.args.kwarg or any(isinstance(a, ast.Starred) for a in call.args) or any(k.arg is None for k in call.keywords):
@@ -141,6 +146,17 @@ class Inliner:
     def stmt(self, s: ast.stmt, module: str, stack: List[str], depth: int) -> List[ast.stmt]:
         if depth > 6:
             return [s]
+        # x = A if C else None   ->   x = None ; if C: x = A      (the spelling the decoders themselves use for optional headers)
+        if isinstance(s, (ast.Assign, ast.AnnAssign)) and isinstance(s.value, ast.IfExp) and isinstance(s.value.orelse, ast.Constant) and s.value.orelse.value is None \
+                and depth > 0:
+            tg = s.targets if isinstance(s, ast.Assign) else [s.target]
+            if len(tg) == 1 and isinstance(tg[0], ast.Name):
+                a0 = ast.copy_location(ast.Assign(targets=[ast.Name(id=tg[0].id, ctx=ast.Store())], value=ast.Constant(value=None)), s)
+                a1 = ast.copy_location(ast.Assign(targets=[ast.Name(id=tg[0].id, ctx=ast.Store())], value=s.value.body), s)
+                iff = ast.copy_location(ast.If(test=s.value.test, body=[a1], orelse=[]), s)
+                for x in (a0, iff):
+                    ast.fix_missing_locations(x)
+                return [a0] + self.stmt(iff, module, stack, depth)
         # compound statements: only their bodies
         for fld in ("body", "orelse", "finalbody"):
             sub = getattr(s, fld, None)
@@ -195,8 +211,75 @@ class Inliner:
         return body + pre + self.stmt(s2, module, stack, depth + 1)
 
 
+def scalar_replace(model: Model, module: str, body: List[ast.stmt]) -> List[ast.stmt]:
+    """`x = Carrier(a, b)` (a NamedTuple / dataclass of the package, positional or keyword arguments that are plain names or
+    constants) whose only other uses are `x.<field>` reads: the reads become the arguments, the carrier disappears"""
+    mod = ast.Module(body=body, type_ignores=[])
+    assigns = {}
+    for a in ast.walk(mod):
+        if isinstance(a, (ast.Assign, ast.AnnAssign)) and a.value is not None:
+            tg = a.targets if isinstance(a, ast.Assign) else [a.target]
+            for t_ in tg:
+                for x in ast.walk(t_):
+                    if isinstance(x, ast.Name):
+                        assigns.setdefault(x.id, []).append(a)
+        elif isinstance(a, (ast.For, ast.AugAssign, ast.With, ast.NamedExpr)):
+            for x in ast.walk(a.target if hasattr(a, "target") else a):
+                if isinstance(x, ast.Name) and isinstance(x.ctx, ast.Store):
+                    assigns.setdefault(x.id, []).append(a)
+    todo = {}
+    for name, asg in assigns.items():
+        if len(asg) != 1 or not isinstance(asg[0], (ast.Assign, ast.AnnAssign)):
+            continue
+        a = asg[0]
+        tg = a.targets if isinstance(a, ast.Assign) else [a.target]
+        if len(tg) != 1 or not isinstance(tg[0], ast.Name) or not isinstance(a.value, ast.Call) or not isinstance(a.value.func, (ast.Name, ast.Attribute)):
+            continue
+        q = model.resolve_name(module, norm(a.value.func))
+        c = model.classes.get(q) if q else None
+        if c is None or not (c.is_dataclass or any(b.endswith("NamedTuple") for b in c.bases)):
+            continue
+        fields = [f.name for f in model.dataclass_fields(q) if f.init] if c.is_dataclass else list(c.annos)
+        if any(isinstance(x, ast.Starred) for x in a.value.args) or any(k.arg is None for k in a.value.keywords) or len(a.value.args) > len(fields):
+            continue
+        mp = dict(zip(fields, a.value.args))
+        mp.update({k.arg: k.value for k in a.value.keywords})
+        if not all(isinstance(v, (ast.Name, ast.Constant)) for v in mp.values()):
+            continue
+        # the arguments must not be re-bound after the carrier is built (their later value would differ from the field's)
+        if any(isinstance(v, ast.Name) and any(getattr(o, "lineno", 0) > a.lineno for o in assigns.get(v.id, [])) for v in mp.values()):
+            continue
+        uses = [x for x in ast.walk(mod) if isinstance(x, ast.Name) and x.id == name and isinstance(x.ctx, ast.Load)]
+        attr_uses = [x for x in ast.walk(mod) if isinstance(x, ast.Attribute) and isinstance(x.value, ast.Name) and x.value.id == name and isinstance(x.ctx, ast.Load) and x.attr in mp]
+        if not uses or len(uses) != len(attr_uses):
+            continue
+        todo[name] = (a, mp)
+    if not todo:
+        return body
+
+    class T(ast.NodeTransformer):
+        def visit_Attribute(self, n: ast.Attribute):
+            if isinstance(n.value, ast.Name) and n.value.id in todo and isinstance(n.ctx, ast.Load) and n.attr in todo[n.value.id][1]:
+                return ast.copy_location(copy.deepcopy(todo[n.value.id][1][n.attr]), n)
+            return self.generic_visit(n)
+
+        def visit_Assign(self, n: ast.Assign):
+            if any(n is a for a, _ in todo.values()):
+                return None
+            return self.generic_visit(n)
+
+        def visit_AnnAssign(self, n: ast.AnnAssign):
+            if any(n is a for a, _ in todo.values()):
+                return None
+            return self.generic_visit(n)
+    mod = T().visit(mod)
+    ast.fix_missing_locations(mod)
+    return mod.body
+
+
 def inline_reader_helpers(model: Model, fi: FuncInfo, normalise) -> List[ast.stmt]:
     """the body of fi with every inlinable reader helper expanded (a deep copy; the model's AST is not touched)"""
     inl = Inliner(model, normalise)
     body = copy.deepcopy(list(fi.node.body))
-    return inl.block(body, fi.module, [fi.qualname, fi.qualname])
+    out = inl.block(body, fi.module, [fi.qualname, fi.qualname])
+    return scalar_replace(model, fi.module, out)
